@@ -42,3 +42,19 @@ Print Assumptions C05_iota_did_parse_never_panics.
 Theorem C05_did_url_parse_never_panics_outside_K_pct : forall s, K_pct s = false -> did_url_parse s <> Panic.
 Proof. intros s K. apply did_url_total_pct_free. unfold no_pct. unfold K_pct in K. rewrite K. reflexivity. Qed.
 Print Assumptions C05_did_url_parse_never_panics_outside_K_pct.
+
+(* MethodDigest::unpack (bounds-checked slicing of a packed format): never panics; pack / unpack round trip; only packed digests are accepted;
+   without the length test the indexing panics *)
+Theorem C05_method_digest_unpack_never_panics : forall bytes, md_unpack true bytes <> Panic.
+Proof. exact md_unpack_never_panics. Qed.
+Print Assumptions C05_method_digest_unpack_never_panics.
+Theorem C05_method_digest_roundtrip : forall d, md_version d = 0%N -> (md_value d < 18446744073709551616)%N -> md_unpack true (md_pack d) = Ok d.
+Proof. exact md_unpack_pack. Qed.
+Print Assumptions C05_method_digest_roundtrip.
+Theorem C05_method_digest_accepts_only_packed : forall bytes d, md_unpack true bytes = Ok d -> Forall (fun b => (b < 256)%N) bytes ->
+  md_version d = 0%N /\ length bytes = 9%nat /\ (md_value d < 18446744073709551616)%N.
+Proof. exact md_unpack_accepts_only_packed. Qed.
+Print Assumptions C05_method_digest_accepts_only_packed.
+Theorem C05_method_digest_unguarded_panics : md_unpack false [] = Panic /\ md_unpack false [0; 1; 2]%N = Panic.
+Proof. exact md_unpack_unguarded_panics. Qed.
+Print Assumptions C05_method_digest_unguarded_panics.
